@@ -1,6 +1,8 @@
 package main
 
 import (
+	"strings"
+	"os"
 	"bytes"
 	"crypto/rand"
 	"crypto/rsa"
@@ -172,6 +174,50 @@ func init() {
 					out.Sample(map[string]interface{}{"file": cc.File, "variant": kind, "signature_bytes": e - s, "lints_compared": len(base)})
 				}
 			}
+		}
+		// through the command-line tool as well (DER on standard input): a verdict, or whether there is one at all, must
+		// not depend on the signature octets - in particular not on the last ones looking like text blanks
+		if bin := os.Getenv("VERIF_CLI"); bin != "" {
+			cliRuns := 0
+			nCli := 5
+			if tier() == "thorough" {
+				nCli = 25
+			}
+			picked := 0
+			for _, t := range tgts {
+				if picked >= nCli {
+					break
+				}
+				if !strings.HasSuffix(t.cc.File, ".pem") || len(t.cc.DER)%3 != 0 {
+					continue
+				}
+				picked++
+				ref := runCLI(bin, []string{"-format", "der"}, t.cc.DER)
+				cliRuns++
+				if ref.code != 0 {
+					continue
+				}
+				for _, last := range [][]byte{{0x20}, {0x0a}, {0x0d, 0x0a}, {0x09}, {0x0c}, {0x0b}, {0xc2, 0x85}, {0xc2, 0xa0}, {0x00}, {0x41}} {
+					mut := append([]byte{}, t.cc.DER...)
+					copy(mut[t.s:t.e], rng.Bytes(t.e-t.s))
+					copy(mut[t.e-len(last):t.e], last)
+					if _, err := safeParseCert(mut); err != nil {
+						continue
+					}
+					r := runCLI(bin, []string{"-format", "der"}, mut)
+					cliRuns++
+					ok := r.code == 0
+					why := fmt.Sprintf("exit %d: %s", r.code, strings.TrimSpace(r.stderr))
+					if ok {
+						ok, why = equalResults(strings.TrimSuffix(r.stdout, "\n"), strings.TrimSuffix(ref.stdout, "\n"), map[string]bool{})
+					}
+					if !ok {
+						out.Violate("C09|cli-depends-on-signature", fmt.Sprintf("the command-line tool treats %s differently when its signature (same length) ends in % x: %s", t.cc.File, last, why),
+							map[string]interface{}{"file": t.cc.File, "der": hexs(mut), "signature_tail": hexs(last)}, "the report of the original certificate", why)
+					}
+				}
+			}
+			out.Stats["cli_runs"] = cliRuns
 		}
 		// generated chain: the same to-be-signed content under two signatures (ECDSA signing is randomised)
 		for i := 0; i < 10; i++ {
